@@ -503,4 +503,57 @@ Section WalkFacts.
     - apply memb_In. apply -> in_rev. apply memb_In. exact E.
     - apply memb_false. intros Hin. apply in_rev in Hin. apply memb_false in E. contradiction.
   Qed.
+  (* ---------------------------------------------------------------- .document and location_path (C08) *)
+  Definition a_top (n : nid) : nid := last (a_ancestors t n) n.                 (* the top of the parent chain *)
+  Theorem document_root_spec n : In n (ids t) ->
+    w_document_root parent is_tag fc n =
+    Ok (match a_parent t n with None => if is_tag n then Some n else None | Some _ => Some (a_top n) end).
+  Proof.
+    intros Hn. unfold w_document_root, a_top. rewrite (Hparent n Hn). cbn [rbind]. rewrite (ancestors_chain t Hnd n Hn).
+    destruct (a_parent t n) as [q|] eqn:Hq; [|reflexivity]. pose proof (parent_in n q Hq) as Hqin.
+    destruct (is_tag n).
+    - rewrite (ancestors_spec ftrue n Hn), filter_ftrue. cbn [rbind]. rewrite (ancestors_chain t Hnd n Hn), Hq.
+      rewrite last_error_cons_last, last_cons_default'. reflexivity.
+    - rewrite (Hparent q Hqin). cbn [rbind]. rewrite (ancestors_chain t Hnd q Hqin). destruct (a_parent t q) as [p'|] eqn:Hp'; [|reflexivity].
+      rewrite (ancestors_spec ftrue q Hqin), filter_ftrue. cbn [rbind]. rewrite (ancestors_chain t Hnd q Hqin), Hp'.
+      rewrite last_error_cons_last, !last_cons_default'. reflexivity.
+  Qed.
+
+  Lemma map_res_spec {A B} (f : A -> res B) (g : A -> B) : forall l, (forall x, In x l -> f x = Ok (g x)) ->
+    map_res f l = Ok (map g l).
+  Proof.
+    induction l as [|x r IH]; intros H; [reflexivity|]. cbn [map_res map]. rewrite (H x (or_introl eq_refl)). cbn [rbind].
+    rewrite IH by (intros y Hy; apply H; right; exact Hy). reflexivity.
+  Qed.
+  Definition tag_pos (x : nid) : nat := match index_of x (filter is_tag (a_siblings t x)) with Some i => i | None => 0 end.
+  Definition path_steps (n : nid) : list nid :=
+    match a_parent t n with None => [] | Some _ => rev (removelast (a_ancestors t n)) ++ [n] end.
+  Lemma tag_index_spec x : In x (ids t) -> is_tag x = true -> a_parent t x <> None ->
+    (i <- w_index first_raw next_raw parent is_tag fc is_tag x ;; match i with Some k => Ok (S k) | None => Crash TypeError end)
+    = Ok (S (tag_pos x)).
+  Proof.
+    intros Hx Htag Hp. rewrite (index_spec is_tag x Hx). unfold tag_pos. destruct (a_parent t x) as [p|] eqn:E; [|congruence].
+    assert (Hin : In x (filter is_tag (a_siblings t x))).
+    { apply filter_In. split; [|exact Htag]. destruct (a_parent_some t x p E) as [s [Hs [_ Hk]]].
+      destruct (in_split_first x _ Hk) as [l1 [l2 [Es _]]]. rewrite (place_siblings t Hnd s l1 l2 x Hs Es).
+      apply in_or_app. right. left. reflexivity. }
+    destruct (index_of_in x _ Hin) as [i Hi]. rewrite Hi. reflexivity.
+  Qed.
+  Lemma has_child_is_tag x y : In x (ids t) -> In y (ids t) -> a_parent t y = Some x -> is_tag x = true.
+  Proof.
+    intros Hx Hy Hp. destruct (is_tag x) eqn:E; [reflexivity|]. exfalso. pose proof (Hleaf x Hx E) as Hl.
+    apply (parent_iff_child t Hnd y x Hx) in Hp. rewrite Hl in Hp. destruct Hp.
+  Qed.
+  Theorem location_path_spec n : In n (ids t) -> is_tag n = true ->
+    w_location_path first_raw next_raw parent is_tag fc n = Ok (map (fun x => S (tag_pos x)) (path_steps n)).
+  Proof.
+    intros Hn Htag. unfold w_location_path, path_steps. rewrite (Hparent n Hn). cbn [rbind].
+    destruct (a_parent t n) as [q|] eqn:Hq; [|reflexivity].
+    rewrite (ancestors_spec ftrue n Hn), filter_ftrue. cbn [rbind]. apply map_res_spec. intros x Hx.
+    apply in_app_or in Hx. destruct Hx as [Hx|[<-|[]]]; [|apply tag_index_spec; [exact Hn|exact Htag|congruence]].
+    apply in_rev in Hx. destruct (in_removelast_split x _ Hx) as [a [b [E Hb]]].
+    destruct (ancestors_split t Hnd a n x b Hn E) as [Hxin [Eb [y [Hy Hpy]]]].
+    apply tag_index_spec; [exact Hxin|exact (has_child_is_tag x y Hxin Hy Hpy)|].
+    intros Hnone. apply Hb. rewrite Eb, (ancestors_chain t Hnd x Hxin), Hnone. reflexivity.
+  Qed.
 End WalkFacts.
